@@ -228,3 +228,6 @@ def run_proofs(ctx):
     from vf.proofs.terms import run_terms
 
     run_terms(ctx, "C10")
+    from vf.proofs import c10_vars
+
+    c10_vars.run_proofs(ctx)
